@@ -79,6 +79,12 @@ func execOp(s *exec.State, ev abs.V) {
 		if _, ok := s.Pk[h]; ok {
 			s.String(h)
 		}
+	case "pick":
+		var idx []int
+		for _, i := range abs.List(ev["idx"]) {
+			idx = append(idx, abs.I(i)-1)
+		}
+		s.Pick(abs.I(ev["src"]), h, idx)
 	case "lenacc":
 		if _, ok := s.Pk[h]; ok {
 			s.LenAcc(h)
